@@ -52,7 +52,11 @@ func pluginInfo(p *run.PluginResult, license string) map[string]interface{} {
 }
 
 func readLicense() string {
-	b, _ := ioutil.ReadFile("/repo/license.txt")
+	repo := os.Getenv("VERIF_REPO")
+	if repo == "" {
+		repo = "/repo"
+	}
+	b, _ := ioutil.ReadFile(repo + "/license.txt")
 	return string(b)
 }
 
